@@ -33,7 +33,7 @@ def _clauses(lst, kind):
 class Contract:
     def __init__(self, target, params, returns=None, requires=(), ensures=(), raises=None, modifies=(),
                  loops=None, pure=False, decreases=None, static_self=None, trusted=False, note="",
-                 ghost_entry=(), alloc=(), locals=None, ambient_exc=False, nullable=(), never_returns=False, defaults=None, static=None, supers=None, views=None):
+                 ghost_entry=(), alloc=(), locals=None, ambient_exc=False, nullable=(), never_returns=False, defaults=None, static=None, supers=None, views=None, field_types=None):
         self.target = target                      # "modelx/core/system.py::CallStack.pop" or "extern::name"
         self.file, _, self.qual = target.partition("::")
         self.params = dict(params)                # ordered: name -> type string
@@ -53,6 +53,7 @@ class Contract:
         self.note = note
         self.alloc = alloc
         self.ambient_exc = ambient_exc; self.nullable = tuple(nullable); self.never_returns = never_returns; self.defaults = dict(defaults or {}); self.static = dict(static or {}); self.supers = dict(supers or {}); self.views = dict(views or {})
+        self.field_types = dict(field_types or {})
         self.locals = dict(locals or {})          # declared types for locals the engine cannot infer
 
     @property
